@@ -2,6 +2,7 @@ package main
 
 import (
 	"go/types"
+	"os"
 	"strings"
 
 	"golang.org/x/tools/go/ssa"
@@ -46,6 +47,10 @@ var pureExternPrefixes = []string{
 	"(lib.LoggerI).", "(lib.ErrorI).", "(lib/crypto.PublicKeyI).", "(lib/crypto.AddressI).",
 	"(google.golang.org/protobuf/reflect/protoreflect.Message).Descriptor",
 	"github.com/drand/kyber", "(github.com/drand/kyber",
+	"google.golang.org/protobuf/encoding/protowire.", "reflect.ValueOf", "(reflect.Value).Kind", "(reflect.Value).IsNil", "(reflect.Value).Len",
+	"(google.golang.org/protobuf/reflect/protoreflect.", "cmp.Compare", "bytes.NewReader", "bytes.NewBuffer",
+	"(encoding/binary.bigEndian).String", "encoding/binary.Size",
+	"(github.com/prometheus/client_golang/prometheus.", "(*github.com/prometheus/client_golang/prometheus.",
 }
 
 // bigIntWriters: math/big methods that write only the receiver's value (ghost array BigVal).
@@ -170,7 +175,17 @@ func (e *Effects) lookup(f *ssa.Function) *ModSet {
 
 // freshRoot reports whether address v points into an object allocated by this very function
 // invocation (writes to it are invisible to the caller's pre-state).
-func freshRoot(v ssa.Value) bool {
+func freshRoot(v ssa.Value) bool { return freshRootV(v, map[*ssa.Alloc]bool{}, 0) }
+
+func freshRootD(v ssa.Value, depth int) bool { return freshRootV(v, map[*ssa.Alloc]bool{}, depth) }
+
+// freshRootV: visiting holds the local cells whose contents are currently being classified; a
+// cell that only ever receives fresh values, nil, or values derived from its own content
+// (x = append(x, ...)) holds fresh memory only (it starts out zero).
+func freshRootV(v ssa.Value, visiting map[*ssa.Alloc]bool, depth int) bool {
+	if depth > 12 {
+		return false
+	}
 	for {
 		switch x := v.(type) {
 		case *ssa.Alloc:
@@ -181,8 +196,54 @@ func freshRoot(v ssa.Value) bool {
 			v = x.X
 		case *ssa.Slice:
 			v = x.X
-		case *ssa.MakeSlice:
+		case *ssa.MakeSlice, *ssa.MakeMap:
 			return true
+		case *ssa.Const:
+			return x.Value == nil // nil slice / map / pointer: nothing to write through
+		case *ssa.Phi:
+			for _, e := range x.Edges {
+				if !freshRootV(e, visiting, depth+1) {
+					return false
+				}
+			}
+			return true
+		case *ssa.Call:
+			if b, ok := x.Call.Value.(*ssa.Builtin); ok && b.Name() == "append" {
+				v = x.Call.Args[0]
+				continue
+			}
+			return false
+		case *ssa.UnOp:
+			// a load from a non-escaping local: fresh when everything ever stored there is fresh
+			a, ok := x.X.(*ssa.Alloc)
+			if !ok || a.Heap || x.Op.String() != "*" {
+				return false
+			}
+			if visiting[a] {
+				return true
+			}
+			visiting[a] = true
+			refs := a.Referrers()
+			if refs == nil {
+				return false
+			}
+			stores := 0
+			for _, r := range *refs {
+				switch s := r.(type) {
+				case *ssa.Store:
+					if s.Addr != a {
+						return false
+					}
+					stores++
+					if !freshRootV(s.Val, visiting, depth+1) {
+						return false
+					}
+				case *ssa.UnOp, *ssa.DebugRef:
+				default:
+					return false // address used in some other way (field address, passed along)
+				}
+			}
+			return stores > 0
 		default:
 			return false
 		}
@@ -198,7 +259,7 @@ func (e *Effects) instrWrites(tc *TypeCtx, fn *ssa.Function, in ssa.Instruction,
 		}
 		e.addrWrites(tc, in.Addr, ms)
 	case *ssa.MapUpdate:
-		if _, ok := in.Map.(*ssa.MakeMap); ok {
+		if freshRoot(in.Map) {
 			return
 		}
 		d, v := tc.MapKeys(in.Map.Type().Underlying().(*types.Map))
@@ -220,8 +281,10 @@ func (e *Effects) instrWrites(tc *TypeCtx, fn *ssa.Function, in ssa.Instruction,
 					ms.Add(tc.ElemKey(c.Args[0].Type().Underlying().(*types.Slice).Elem()))
 				}
 			case "delete":
-				d, _ := tc.MapKeys(c.Args[0].Type().Underlying().(*types.Map))
-				ms.Add(d)
+				if !freshRoot(c.Args[0]) {
+					d, _ := tc.MapKeys(c.Args[0].Type().Underlying().(*types.Map))
+					ms.Add(d)
+				}
 			case "clear":
 				ms.All = true
 			}
@@ -230,7 +293,17 @@ func (e *Effects) instrWrites(tc *TypeCtx, fn *ssa.Function, in ssa.Instruction,
 		if c.IsInvoke() {
 			key := ifaceMethodKey(c.Method)
 			if ct := e.g.contracts[key]; ct != nil && ct.Modifies != nil {
-				ms.Union(ct.Modifies.ResolveIn(e.fx, c.Method.Pkg()))
+				names := []string{"self"}
+				msig := c.Method.Type().(*types.Signature)
+				for i := 0; i < msig.Params().Len(); i++ {
+					names = append(names, msig.Params().At(i).Name())
+				}
+				vals := append([]ssa.Value{c.Value}, c.Args...)
+				tys := make([]types.Type, len(vals))
+				for i, v := range vals {
+					tys[i] = v.Type()
+				}
+				ms.Union(ct.Modifies.ResolveAt(e.fx, c.Method.Pkg(), names, vals, nil, tys))
 				return
 			}
 			ms.Union(e.external(key))
@@ -253,7 +326,24 @@ func (e *Effects) instrWrites(tc *TypeCtx, fn *ssa.Function, in ssa.Instruction,
 			} else if o := callee.Object(); o != nil {
 				pkg = o.Pkg()
 			}
-			ms.Union(ct.Modifies.ResolveIn(e.fx, pkg))
+			var names []string
+			if len(callee.Params) > 0 {
+				for _, p := range callee.Params {
+					names = append(names, p.Name())
+				}
+			} else {
+				if r := callee.Signature.Recv(); r != nil {
+					names = append(names, r.Name())
+				}
+				for i := 0; i < callee.Signature.Params().Len(); i++ {
+					names = append(names, callee.Signature.Params().At(i).Name())
+				}
+			}
+			tys := make([]types.Type, len(c.Args))
+			for i, v := range c.Args {
+				tys[i] = v.Type()
+			}
+			ms.Union(ct.Modifies.ResolveAt(e.fx, pkg, names, c.Args, nil, tys))
 			return
 		}
 		ms.Union(e.lookup(callee))
@@ -352,7 +442,11 @@ func (e *Effects) Why(fn *ssa.Function, depth int, seen map[*ssa.Function]bool, 
 				}()
 				e.instrWrites(e.tc, fn, in, ms)
 			}()
-			if !ms.All {
+			if wk := os.Getenv("WHYKEY"); wk != "" {
+				if !ms.Keys[wk] {
+					continue
+				}
+			} else if !ms.All {
 				continue
 			}
 			line := strings.Repeat("  ", depth) + funcKey(fn) + ": " + in.String()
